@@ -195,6 +195,23 @@ def run(ctx) -> list[Inst]:
             rby.setdefault(norm(r.path), []).append(r)
         rel_w = wf.module.relpath
         rel_r = rf.module.relpath
+        # a record (or part of it) parked in a local container - `todo.append((node, node_dict))` - and read back later
+        # is outside the access paths followed here: "never read" cannot be claimed for that reader
+        derived = {root}
+        for _ in range(3):
+            for n in own_nodes(rf.node):
+                if isinstance(n, ast.Assign) and len(n.targets) == 1 and isinstance(n.targets[0], ast.Name) \
+                        and any(isinstance(x, ast.Name) and x.id in derived for x in ast.walk(n.value)):
+                    derived.add(n.targets[0].id)
+                if isinstance(n, ast.For) and any(isinstance(x, ast.Name) and x.id in derived for x in ast.walk(n.iter)):
+                    for x in ast.walk(n.target):
+                        if isinstance(x, ast.Name):
+                            derived.add(x.id)
+        reader_parks = any(
+            isinstance(n, ast.Call) and isinstance(n.func, ast.Attribute) and n.func.attr in ('append', 'add', 'setdefault')
+            and any(isinstance(a, (ast.Tuple, ast.List)) and any(isinstance(e, ast.Name) and e.id in derived and e.id != root
+                                                                   for e in a.elts) for a in n.args)
+            for n in own_nodes(rf.node))
         # ---------------------------------------------------------------- (i)
         for path, wl in sorted(wby.items()):
             if path[-1] == '*':
@@ -209,6 +226,11 @@ def run(ctx) -> list[Inst]:
                 insts.append(Inst(RULE, w.func.short, construct + ' [documented exception]', 'info',
                                   msg=cd['unread_ok'][path], file=w.func.module.relpath,
                                   line=getattr(w.value, 'lineno', 0), props=props, nontrivial=False))
+            elif reader_parks:
+                insts.append(Inst(RULE, w.func.short, construct, 'unproven',
+                                  msg=(f"no read of '{path[-1]}' seen, but {rf.short} keeps records in a local container "
+                                       f"and reads them back from there (not followed)"),
+                                  file=w.func.module.relpath, line=getattr(w.value, 'lineno', 0), props=props))
             else:
                 insts.append(Inst(
                     RULE, w.func.short, construct, 'violation',
@@ -643,6 +665,30 @@ def _ext_table(f):
     return table
 
 
+def _ext_readable(f) -> bool:
+    """is every `x.endswith(..)` of f a plain positive test of an `if` / `elif` (the dispatch form _ext_table reads)?
+    A result kept in a local, negated, or steering a conditional expression is another way of dispatching."""
+    pm = {}
+    for n in ast.walk(f.node):
+        for ch in ast.iter_child_nodes(n):
+            pm[id(ch)] = n
+    for n in own_nodes(f.node):
+        if isinstance(n, ast.Call) and isinstance(n.func, ast.Attribute) and n.func.attr == 'endswith':
+            cur, child = pm.get(id(n)), n
+            ok = False
+            while cur is not None:
+                if isinstance(cur, ast.If) and cur.test is child:
+                    ok = True
+                    break
+                if isinstance(cur, ast.BoolOp) and isinstance(cur.op, ast.Or):
+                    child, cur = cur, pm.get(id(cur))
+                    continue
+                break
+            if not ok:
+                return False
+    return True
+
+
 def _extensions(ctx) -> list[Inst]:
     prog = ctx.prog
     insts = []
@@ -661,6 +707,11 @@ def _extensions(ctx) -> list[Inst]:
         lf = prog.func(ln)
         lt = _ext_table(lf)
         construct = f'(vi) extension table of {ln} equals that of save_dict_to_file'
+        if not _ext_readable(lf) or not _ext_readable(save):
+            insts.append(Inst(RULE, ln, construct, 'unproven',
+                              msg='extension tests are kept in locals / negated / steer a conditional expression: dispatch not read',
+                              file=lf.module.relpath, line=lf.node.lineno, props=props))
+            continue
         if set(lt) == set(st):
             insts.append(Inst(RULE, ln, construct, 'ok', msg=', '.join(sorted(lt)),
                               file=lf.module.relpath, line=lf.node.lineno, props=props))
